@@ -146,6 +146,56 @@ def report(chk, found, strip):
         chk.bad[-1]["count"] = len(lst)
 
 
+def pc_pairs(chk, tier, full):
+    """Dynamic complement (and the fallback when the abstract machine cannot interpret the current assembly): PC
+    traces of the real routines for the same lengths and different data, compared by TLC (T_Leak `pc.pair`).
+    Always: refused messages whose tag is wrong in its first / 8th / 9th / last byte against each other and against
+    the authentic message.  `full`: also every routine x length vector x three data sets."""
+    from ..sm2gen import Gen
+    g = Gen(chk.rng)
+
+    def raw(routine, args):
+        out, syms = ac.build_target(chk)
+        if routine not in syms:
+            raise core.Infra("symbol %s not in the target binary" % routine)
+        lo, size = syms[routine]
+        import subprocess, json as _j
+        p = subprocess.run([chk.drv(), "asmtrace", lo, size, out] + [str(a) for a in args], capture_output=True, text=True,
+                           timeout=300)
+        if p.returncode != 0:
+            raise core.Infra("asmtrace failed for %s %s: %s" % (routine, args, p.stderr[-300:]))
+        pcs = _j.loads(p.stdout)
+        base = int(lo, 16)
+        return [x - base for x in pcs]
+
+    n = 0
+    for v in ((33, 5, 12, 16), (5, 0, 12, 12), (100, 20, 16, 13), (64, 3, 12, 15)):
+        sd = 3 + core.seed()
+        auth = raw("openAsm", ["open"] + list(v) + [sd])
+        bad = [raw("openAsm", ["open"] + list(v) + [sd, fb]) for fb in (0, 7, 8, v[3] - 1)]
+        for i in range(1, len(bad)):
+            g.one("open_refused_pair", "pc.pair", routine="openAsm", mode="same", ta=bad[0], tb=bad[i], slack=0,
+                  lens=list(v))
+        g.one("open_verdict_pair", "pc.pair", routine="openAsm", mode="verdict", ta=auth, tb=bad[0], slack=12, lens=list(v))
+        n += 5
+    if full:
+        vec = [(0, 0, 12, 16), (1, 0, 12, 12), (5, 3, 12, 16), (16, 16, 12, 16), (33, 130, 16, 12), (100, 20, 12, 16), (300, 0, 1, 16),
+               (64, 129, 128, 16), (257, 17, 12, 14), (1100, 1100, 12, 16)]
+        for routine, kind in (("sealAsm", "seal"), ("openAsm", "open")):
+            for v in vec:
+                trs = [raw(routine, [kind] + list(v) + [sd]) for sd in (1, 2, 3)]
+                for t in trs[1:]:
+                    g.one("data_pair", "pc.pair", routine=routine, mode="same", ta=trs[0], tb=t, slack=0, lens=list(v))
+                n += 3
+        for name, k in (("cryptoBlockAsm", 1), ("cryptoBlockAsmX2", 2), ("cryptoBlockAsmX4", 4), ("cryptoBlockAsmX8", 8),
+                        ("cryptoBlockAsmX16", 16)):
+            trs = [raw(name, ["kernel", k, sd]) for sd in (1, 2, 3)]
+            for t in trs[1:]:
+                g.one("data_pair", "pc.pair", routine=name, mode="same", ta=trs[0], tb=t, slack=0, lens=[k])
+    chk.exec_and_validate("T_Leak", g.cmds, lambda b: "pc.%s.%s" % (b["ev"]["routine"], b["ev"]["mode"]), tag="pc")
+    chk.extra["pc_traces_compared"] = chk.extra.get("pc_traces_compared", 0) + n
+
+
 def strip_c09(msg):
     import re
     return re.sub(r"[^A-Za-z0-9]+", "_", msg).strip("_")
@@ -153,11 +203,22 @@ def strip_c09(msg):
 
 def run(tier):
     chk = Check(PROP, tier)
-    found = analyse(chk, tier, ("C09",))
-    found += cpu_conformance(chk, tier)
-    report(chk, found, strip_c09)
-    chk.events = chk.extra["asm_paths"]
-    chk.classes = {"length_vectors": chk.extra["asm_contexts"]}
+    # If the abstract machine cannot interpret the current assembly (an opcode or operand form in no table ...) that is
+    # not a verdict: the PC traces of the real routines are then compared pairwise by TLC instead, and only when those
+    # find nothing is the run inconclusive (exit 2).
+    deferred = None
+    try:
+        found = analyse(chk, tier, ("C09",))
+        found += cpu_conformance(chk, tier)
+        report(chk, found, strip_c09)
+    except core.Infra as e:
+        deferred = e
+        chk.notes.append("abstract machine not completed: %s" % str(e)[:300])
+    pc_pairs(chk, tier, full=deferred is not None)
+    if deferred is not None and not chk.bad:
+        raise deferred
+    chk.events = max(chk.events, chk.extra.get("asm_paths", 0))
+    chk.classes = {"length_vectors": chk.extra.get("asm_contexts", 0)}
     return chk.finish(
         "model_checking",
         "every amd64 assembly routine that has a Go declaration (needExpand, copyAsm, expandKeyAsm, the five block "
